@@ -1,6 +1,7 @@
 import XProofs.Clip
 import XProofs.Limits
 import XModel.Opt
+import XModel.OptFix
 /-!
 # C10 — accepted optimizer iterates respect limits, max_step and disabled knobs
 -/
@@ -55,6 +56,17 @@ theorem C10_inactive_knob_untouched {R : Type} (c : Opt.Cfg R) (check : Bool) (x
             simp [hne, this.1]
         · simp only [ha] at h
           obtain ⟨_, rfl⟩ := h; exact this
+
+/-- **a disabled knob is never changed by `step()`**: on the control skeleton of `Optimize.step` (start row, loop of
+    Jacobian steps with arbitrary numerics, `set_knobs_from_x`, log rows, `take_best` reload of any row logged during
+    the call), for every outcome — normal return or exception — a knob that is inactive when the call starts holds
+    the same value afterwards, is still inactive, and every row logged by the call records that value -/
+theorem C10_disabled_knob_never_changed {R : Type} (c : Opt.Cfg R) (its : List (Opt.Iter R)) (tb : Option Nat) (k : Nat)
+    (s s' : Opt.St R) (r : Except Opt.Err Unit) (hk : s.vAct k = false)
+    (htb : ∀ i, tb = some i → s.log.length ≤ i) (h : Opt.optStep c its tb s = (r, s')) :
+    s'.knobs k = s.knobs k ∧ s'.vAct k = false ∧
+    ∀ i row, s.log.length ≤ i → s'.log[i]? = some row → row.knobs k = s.knobs k ∧ row.vAct k = false :=
+  Opt.optStep_disabled_fixed c its tb k s s' r hk htb h
 
 /-- the pinned code's behaviour on the probed witness (max_step = (1, 5), raw step (10, 10)): knob 0 moves by 5 -/
 example : Clip.clipPinned (fun i => if i = 0 then some 1 else some 5) 2 (fun _ => 10) 0 = 5 := by
